@@ -59,7 +59,7 @@ def build(nest, field, opts):
     nest_col = "m" if opts.get("unknown_nest") else nest
     nf[nest_col] = col
     if opts.get("literal"):
-        nf[f"`{nest}.{field}`"] = [9003, 9001, 3]           # a base column literally named 'n.a'
+        nf[f"`{nest}.{field}`"] = [9003.0, None, 3.0]       # a base column literally named 'n.a' (with a missing value)
     return nf
 
 
@@ -93,7 +93,8 @@ def classify_values(vals, nf0, nest_col, field_name, literal_name):
         if vals == fv:
             return ("field", nest_col, f)
     for c in nf0.columns:
-        if c != nest_col and not hasattr(nf0[c].array, "chunked_array") and [int(v) for v in nf0[c]] == vals:
+        if c != nest_col and not hasattr(nf0[c].array, "chunked_array") and \
+                [None if (v is None or v != v) else int(v) for v in nf0[c].tolist()] == vals:
             return ("column", c)
     return ("other", repr(vals)[:60])
 
@@ -133,7 +134,7 @@ def observe(op, nf, path, nest_col):
             if fv and fv[0] == 7000:
                 return ("field", nest_col, f)
         for c in before_cols:
-            if c != nest_col and not hasattr(nf[c].array, "chunked_array") and int(nf[c].iloc[0]) == 7000:
+            if c != nest_col and not hasattr(nf[c].array, "chunked_array") and nf[c].iloc[0] == 7000:
                 return ("column", c)
         return ("other", "nothing changed")
     if op == "query":
@@ -147,7 +148,7 @@ def observe(op, nf, path, nest_col):
                 return ("field", nest_col, f)
         for c in before_cols:
             if c != nest_col and not hasattr(nf0[c].array, "chunked_array"):
-                keep = [i for i, v in enumerate(nf0[c]) if v > 15]
+                keep = [i for i, v in enumerate(nf0[c].tolist()) if v is not None and v == v and v > 15]
                 if [int(v) for v in r["x"]] == keep and len(keep) != len(nf0):
                     return ("column", c)
                 if [int(v) for v in r["x"]] == keep:
@@ -174,7 +175,9 @@ def observe(op, nf, path, nest_col):
                     return ("field", nest_col, f)
         for c in before_cols:
             if c != nest_col and not hasattr(nf0[c].array, "chunked_array"):
-                order = sorted(range(3), key=lambda i: nf0[c].iloc[i])
+                colv = nf0[c].tolist()
+                order = sorted([i for i in range(3) if colv[i] is not None and colv[i] == colv[i]], key=lambda i: colv[i]) + \
+                    [i for i in range(3) if colv[i] is None or colv[i] != colv[i]]
                 if [int(v) for v in r["x"]] == order and order != [0, 1, 2]:
                     return ("column", c)
                 if [int(v) for v in r["x"]] == order:
@@ -190,6 +193,11 @@ def observe(op, nf, path, nest_col):
                 if [list(g[f]) if g is not None else [] for g in rows1] == want and any(None in row[f] for row in rows0):
                     return ("field", nest_col, f)
             return ("field?", nest_col)
+        dropped = [i for i in range(3) if i not in [int(v) for v in r["x"]]]
+        for c in before_cols:
+            if c != nest_col and not hasattr(nf0[c].array, "chunked_array"):
+                if [i for i, v in enumerate(nf0[c].tolist()) if v is None or v != v] == dropped:
+                    return ("column", c)
         return ("column?", "rows dropped")
     raise ValueError(op)
 
